@@ -17,11 +17,23 @@
 // Case tokens (all numbers decimal, `-` = absent / nil):
 //
 //	chk <nblocks> <ninstr> <nvals> <ntypes> <recover bid|-> <nres> <res tid>...
+//	    <nparams> <Params[i] value id>... <nsig> <tid>...   (nsig: receiver type, then Signature.Params)
+//	    <nfree> <FreeVars[i] value id>... <nlocals> <Locals[i] instruction id|->...
 //	T  { <ctor> <under tid> <core tid|-> <flags> <len> <nkids> <kid tid>... } x ntypes
 //	V  { <kind> <tid|-> <nrefs|~> <ref>... } x nvals           value id = ninstr + position
 //	B  { <Index> <npreds> <pred>... <nsuccs> <succ>... <ninstrs> } x nblocks
 //	I  { <kind> <tid|-> <Block().Index|-> <ID()> <a> <b> <c> <nxs> <x>... <nops> <op|->...
-//	     <nrefs|~> <ref>... } x ninstr     instruction value id = position in block order
+//	     <nfops> <fop|->... <nrefs|~> <ref>... } x ninstr
+//	                                        instruction value id = position in block order
+//
+// `ops` is what the method Instruction.Operands() returns.  `fops` is what the STRUCT of the
+// instruction holds: every field (exported or not, through embedded and nested structs of
+// package go/ir such as CallCommon, and through slices, incl. []*SelectState) whose static
+// type is ir.Value (or a concrete pointer type implementing ir.Value), found by reflection
+// over the struct type, in declaration order.  The two are dumped independently so that the
+// validator can require that they agree: an operand that Operands() forgets is invisible to
+// referrer building, lifting/renaming and go/ir's own sanity checker, which all go through
+// Operands().
 //
 // Value identity is pointer identity.  An operand or referrer that is an instruction but
 // is not contained in any block of the function is given a value entry of kind
@@ -42,9 +54,12 @@ import (
 	"fmt"
 	"go/token"
 	"go/types"
+	"reflect"
 	"slices"
 	"strconv"
 	"strings"
+	"sync"
+	"unsafe"
 
 	xtypeutil "golang.org/x/tools/go/types/typeutil"
 	"honnef.co/go/tools/go/ir"
@@ -370,6 +385,151 @@ var opCode = map[token.Token]int{
 	token.NOT: 18,
 }
 
+// ---- operands as held by the instruction structs (reflection; independent of Operands())
+
+type fieldStep struct {
+	off  uintptr
+	kind int // 0 ir.Value field, 1 concrete pointer implementing ir.Value, 2 slice
+	typ  reflect.Type
+	elem *fieldPlan // kind 2: plan of one element (nil: the element is a Value itself)
+	ptr  bool       // kind 2: elements are pointers to the planned struct
+	esz  uintptr    // kind 2: element size
+	ek   int        // kind 2 with elem == nil: 0 ir.Value element, 1 concrete pointer element
+}
+
+type fieldPlan struct{ steps []fieldStep }
+
+// layout of a slice value
+type sliceHdr struct {
+	data     unsafe.Pointer
+	len, cap int
+}
+
+var (
+	valueIface = reflect.TypeOf((*ir.Value)(nil)).Elem()
+	instrIface = reflect.TypeOf((*ir.Instruction)(nil)).Elem()
+	irPkgPath  = reflect.TypeOf(ir.Jump{}).PkgPath()
+	planMu     sync.Mutex
+	plans      = map[reflect.Type]*fieldPlan{}
+)
+
+// valueHolder: 0 = static type ir.Value, 1 = concrete pointer type that implements ir.Value,
+// -1 = neither.
+func valueHolder(t reflect.Type) int {
+	if t == valueIface {
+		return 0
+	}
+	if t.Kind() == reflect.Pointer && t.Elem().Kind() == reflect.Struct && t.Implements(valueIface) {
+		return 1
+	}
+	return -1
+}
+
+// planFor lists, for a struct type of package go/ir, the places that hold operands.
+// Plain pointer fields (block *BasicBlock, …) and fields of other interface types
+// (Instruction, types.Type, ast.Node, …) are not followed.
+func planFor(t reflect.Type, depth int) *fieldPlan {
+	p := &fieldPlan{}
+	if depth > 6 {
+		return p
+	}
+	for i := 0; i < t.NumField(); i++ {
+		f := t.Field(i)
+		ft := f.Type
+		if k := valueHolder(ft); k >= 0 {
+			p.steps = append(p.steps, fieldStep{off: f.Offset, kind: k, typ: ft})
+			continue
+		}
+		switch ft.Kind() {
+		case reflect.Struct:
+			if ft.PkgPath() == irPkgPath {
+				sub := planFor(ft, depth+1)
+				for _, s := range sub.steps {
+					s.off += f.Offset
+					p.steps = append(p.steps, s)
+				}
+			}
+		case reflect.Slice:
+			et := ft.Elem()
+			if k := valueHolder(et); k >= 0 {
+				p.steps = append(p.steps, fieldStep{off: f.Offset, kind: 2, typ: et, esz: et.Size(), ek: k})
+				continue
+			}
+			ptr := false
+			st := et
+			if et.Kind() == reflect.Pointer {
+				ptr = true
+				st = et.Elem()
+			}
+			if st.Kind() == reflect.Struct && st.PkgPath() == irPkgPath &&
+				!reflect.PointerTo(st).Implements(instrIface) && !reflect.PointerTo(st).Implements(valueIface) &&
+				st.Name() != "BasicBlock" && st.Name() != "Function" && st.Name() != "Package" && st.Name() != "Program" {
+				sub := planFor(st, depth+1)
+				if len(sub.steps) > 0 {
+					p.steps = append(p.steps, fieldStep{off: f.Offset, kind: 2, typ: st, elem: sub, ptr: ptr, esz: et.Size()})
+				}
+			}
+		}
+	}
+	return p
+}
+
+func readHolder(base unsafe.Pointer, off uintptr, kind int, typ reflect.Type) ir.Value {
+	p := unsafe.Add(base, off)
+	if kind == 0 {
+		return *(*ir.Value)(p)
+	}
+	rv := reflect.NewAt(typ, p).Elem()
+	if rv.IsNil() {
+		return nil
+	}
+	return rv.Interface().(ir.Value)
+}
+
+func (pl *fieldPlan) collect(base unsafe.Pointer, out []ir.Value) []ir.Value {
+	for _, s := range pl.steps {
+		switch s.kind {
+		case 0, 1:
+			out = append(out, readHolder(base, s.off, s.kind, s.typ))
+		case 2:
+			hdr := (*sliceHdr)(unsafe.Add(base, s.off))
+			data, n := hdr.data, hdr.len
+			for i := 0; i < n; i++ {
+				ep := unsafe.Add(data, uintptr(i)*s.esz)
+				switch {
+				case s.elem == nil:
+					out = append(out, readHolder(ep, 0, s.ek, s.typ))
+				case s.ptr:
+					if q := *(*unsafe.Pointer)(ep); q != nil {
+						out = s.elem.collect(q, out)
+					}
+				default:
+					out = s.elem.collect(ep, out)
+				}
+			}
+		}
+	}
+	return out
+}
+
+// FieldOperands returns every operand the struct of in holds (nil entries for nil fields),
+// in declaration order, without calling in.Operands.
+func FieldOperands(in ir.Instruction, out []ir.Value) []ir.Value {
+	rv := reflect.ValueOf(in)
+	if rv.Kind() != reflect.Pointer || rv.IsNil() || rv.Elem().Kind() != reflect.Struct {
+		return out
+	}
+	t := rv.Elem().Type()
+	planMu.Lock()
+	pl := plans[t]
+	if pl == nil {
+		pl = planFor(t, 0)
+		plans[t] = pl
+	}
+	planMu.Unlock()
+	return pl.collect(rv.UnsafePointer(), out)
+}
+
 type valEntry struct {
 	kind string
 	tid  int
@@ -513,6 +673,7 @@ func (d *Dumper) Function(pid int, fn *ir.Function, mode string) {
 	var ib strings.Builder // I section
 	var bb strings.Builder // B section
 	var rands []*ir.Value
+	var fvals []ir.Value
 	writeRefs := func(sb *strings.Builder, refs *[]ir.Instruction) {
 		if refs == nil {
 			sb.WriteString(" ~")
@@ -640,6 +801,15 @@ func (d *Dumper) Function(pid int, fn *ir.Function, mode string) {
 					ib.WriteString(" " + itoa(valueID(*op)))
 				}
 			}
+			fvals = FieldOperands(in, fvals[:0])
+			ib.WriteString(" " + itoa(len(fvals)))
+			for _, fv := range fvals {
+				if fv == nil {
+					ib.WriteString(" -")
+				} else {
+					ib.WriteString(" " + itoa(valueID(fv)))
+				}
+			}
 			writeRefs(&ib, refs)
 		}
 		fmt.Fprintf(&bb, " %d", n)
@@ -660,6 +830,37 @@ func (d *Dumper) Function(pid int, fn *ir.Function, mode string) {
 			res = append(res, tid(sig.Results().At(i).Type()))
 		}
 	}
+	// function level: Params, receiver + Signature.Params, FreeVars, Locals
+	var hdr strings.Builder
+	fmt.Fprintf(&hdr, " %d", len(fn.Params))
+	for _, p := range fn.Params {
+		hdr.WriteString(" " + itoa(valueID(p)))
+	}
+	var sigps []int
+	if sig := fn.Signature; sig != nil {
+		if sig.Recv() != nil {
+			sigps = append(sigps, tid(sig.Recv().Type()))
+		}
+		for i := 0; i < sig.Params().Len(); i++ {
+			sigps = append(sigps, tid(sig.Params().At(i).Type()))
+		}
+	}
+	fmt.Fprintf(&hdr, " %d", len(sigps))
+	for _, t := range sigps {
+		hdr.WriteString(" " + itoa(t))
+	}
+	fmt.Fprintf(&hdr, " %d", len(fn.FreeVars))
+	for _, fv := range fn.FreeVars {
+		hdr.WriteString(" " + itoa(valueID(fv)))
+	}
+	fmt.Fprintf(&hdr, " %d", len(fn.Locals))
+	for _, l := range fn.Locals {
+		if id, ok := inum[l]; ok && l != nil {
+			hdr.WriteString(" " + itoa(id))
+		} else {
+			hdr.WriteString(" -")
+		}
+	}
 	tt.expand()
 
 	rec := "-"
@@ -674,6 +875,7 @@ func (d *Dumper) Function(pid int, fn *ir.Function, mode string) {
 	for _, r := range res {
 		w.WriteString(" " + itoa(r))
 	}
+	w.WriteString(hdr.String())
 	w.WriteString(" T")
 	for _, e := range tt.entries {
 		fmt.Fprintf(w, " %s %d %s %d %d %d", e.ctor, e.under, optID(e.core), e.flags, e.length, len(e.kids))
